@@ -20,6 +20,7 @@ pub struct ImAsync {
     ret: Value,
     panic: AtomicU8,
     _t: Tracker,
+    _bomb: DropBomb,
 }
 impl ImAsync {
     fn body(&self) {
@@ -109,8 +110,8 @@ impl Target for AAsync {
     }
 }
 fn mk_async(abi: bool, cx: ImplCtx) -> Result<Box<dyn Target>, String> {
-    let (ret, panic, t) = cx.into_parts();
-    let b: Box<dyn TrAsync> = Box::new(ImAsync { ret, panic: AtomicU8::new(panic), _t: t });
+    let (ret, panic, t, bomb) = cx.into_parts();
+    let b: Box<dyn TrAsync> = Box::new(ImAsync { ret, panic: AtomicU8::new(panic), _t: t, _bomb: bomb });
     if abi {
         match AbiConnection::from_boxed_trait(b) {
             Ok(c) => Ok(Box::new(AAsync(c))),
